@@ -208,13 +208,17 @@ def delSel (l : List Item) : Sel → List Item
   | .plain a b => l.take a ++ l.drop b
   | .ext asc _ => removeIdxs l asc
 
-/-- walk along the list and put `xs` at the ascending positions `idxs` (current position `pos`) -/
+/-- walk along the list (current position `pos`) and put the next element of `xs` wherever the position
+is one of `idxs`; `none` when `xs` runs out or is not used up -/
 def setWalk : List Item → List Nat → List Item → Nat → Option (List Item)
-  | l, [], [], _ => some l
-  | a :: l, i :: is, x :: xs, pos =>
-    if i = pos then (setWalk l is xs (pos + 1)).map (x :: ·)
-    else (setWalk l (i :: is) (x :: xs) (pos + 1)).map (a :: ·)
-  | _, _, _, _ => none
+  | [], _, [], _ => some []
+  | [], _, _ :: _, _ => none
+  | a :: l, idxs, xs, pos =>
+    if idxs.contains pos then
+      match xs with
+      | x :: xs' => (setWalk l idxs xs' (pos + 1)).map (x :: ·)
+      | [] => none
+    else (setWalk l idxs xs (pos + 1)).map (a :: ·)
 
 /-- `list[slice] = xs` (ValueError when an extended slice and `xs` differ in length) -/
 def setSel (l : List Item) (xs : List Item) : Sel → Except ErrKind (List Item)
